@@ -38,7 +38,7 @@ def fits(kind, v) -> bool:
     return True
 
 
-@contract("core.parameter:Parameter.validate", props=["C18", "C14"])
+@contract("core.parameter:Parameter.validate", props=["C18", "C14", "C16"])
 class Validate:
     def requires(self, value):
         return wf_param(self) and plain_value(value)
